@@ -7,6 +7,18 @@ HERE = os.path.dirname(os.path.abspath(__file__))
 
 # property -> (technique, level text, level note, design ref)
 CLAIMED = {
+    "C17": (
+        "runtime reference-model monitor: f64 Bernstein form and derivative as oracle for eval/fast_eval/tangent; for approximate() the caller-supplied halt closure is harness code whose argument/result log is replayed as a depth-first bisection of [0,1], so the whole recursion tree and every returned point are checked bit-for-bit",
+        "Control polygons of six types (f32, Vec2/3, Point2/3, Color4f) over magnitudes 1e-3..1e4 incl. coincident, collinear, repeated and lattice controls: cubic Bézier at parameters from a palette (<0, 0, ±ulp, 1, >1, random, NaN) — both evaluators vs Bernstein (1e-5·max|control|), exact end points at and beyond the ends, control bounding box, tangent vs derivative; splines of 1..8 segments at every join k/n and its two f32 neighbours plus the palette — equals the segment's cubic, passes through every third control point, exact ends, no panic for any t; approximate() with halt ∈ {always, never, NaN-comparison, thresholds}: halt's argument is curve(mid) − chord midpoint, a node is a leaf iff halt said true or the depth bound 10+⌊log2 len⌋ is reached, output = curve points at strictly increasing dyadic parameters + the last control point, bit-for-bit.",
+        "Tolerances: 1e-5·max|control| (splines: 2e-5 plus a segment-parameter rounding term), tangents 12×. Spline tangent is w.r.t. the segment-local parameter, as the code documents.",
+        "DESIGN.md §5 C17",
+    ),
+    "C18": (
+        "runtime relation monitor: f64 trigonometry and exact f32 relations as oracle for unit conversions, operators, wrap (interval membership + congruence modulo the f32 interval length), polar/spherical coordinate changes in both compositions",
+        "≥ 5·10^6 (thorough 5·10^8) cases: angles over ±1e4 rad incl. quarter-turn multiples ±1 ulp — degrees/radians/turns mutually consistent (1e-6), operators/min/max/clamp bit-identical to the same operation on the magnitude, sin_cos ≡ (sin, cos), sin²+cos² = 1, sin/cos vs f64; wrap into intervals of any position and width 1e-3..100 rad — result inside [min,max] and congruent to the input with a tolerance scaled by the operand magnitudes; vectors over 1e-6..1e6 incl. axis-aligned and near-axis — r = length, azimuth in [-180°,180°], altitude in [-90°,90°], both compositions inverse.",
+        "wrap judged for max > min; azimuth tolerance scaled near the poles where it is ill-conditioned.",
+        "DESIGN.md §5 C18",
+    ),
     "C16": (
         "runtime relation monitor on the conversion functions: exhaustive enumeration of the 8-bit domains, dense float lattice aimed at every hue-sextant boundary ±1 ulp plus random triples, round-trip / range / byte-order / saturation oracles, panic capture with debug assertions on; f64 HSL reference reported alongside",
         "All 2^24 8-bit RGB triples (to_hsl().to_rgb() within 8/255, grays achromatic and lightness kept) and all 2^24 8-bit HSL triples (total); a float lattice incl. every sextant boundary and mid-sextant ±1 ulp read both as HSL and as RGB plus ≥ 10^6 random triples (RGB→HSL→RGB within 1e-4, HSL in range, HSL→RGB in range, HSL→RGB→HSL modulo hue wrap, hue 1 ≡ hue 0, no debug-assertion panic on in-range input); RGBA words (2^24 stratified quick, all 2^32 thorough) for the three packings and rgb↔rgba; float→8-bit clamping incl. NaN, ±inf, out-of-range; 8-bit Affine::add over all 256×511 pairs.",
